@@ -632,9 +632,13 @@ def run_stream(profile, n, seed, keep_samples=2):
         from scheduler.asyncio import Scheduler as AioScheduler
         AioScheduler()
         ofails.append(dict(property="C18", message="Scheduler() without a running loop did not raise", index=-1, ops=None, lines=[]))
-    except Exception as e:  # noqa
-        if type(e).__name__ != "SchedulerError":
-            ofails.append(dict(property="C18", message="Scheduler() without a running loop raised %r" % (e,), index=-1, ops=None, lines=[]))
+    except (KeyboardInterrupt, SystemExit, GeneratorExit):
+        raise
+    except BaseException as e:  # noqa
+        if core.exc_name(e) != "SchedulerError":
+            for pid in ("C18", "C17", "C13"):
+                ofails.append(dict(property=pid, message="Scheduler() without a running loop raised %r (%s)" % (e, core.exc_name(e)),
+                                   index=-1, ops=None, lines=[]))
     model = core.run_model(all_lines)
     mismatches = []
     sigs = set()
